@@ -181,3 +181,50 @@ def mutate(rnd: random.Random, s: str) -> str:
         a, b = min(i, j), max(i, j)
         return s[:a] + s[b:] + s[a:b]
     return s + rnd.choice(MUT_TOKENS)
+
+
+# ---------------------------------------------------------------------------------------------
+# systematic same-variable pairs: every operator pair on equal / adjacent / distant literals
+# (the C07 quantifier: "several leaves on the same variable with contradictory/overlapping/adjacent values,
+#  mixed python_version/python_full_version clauses")
+# ---------------------------------------------------------------------------------------------
+
+def python_leaf_universe() -> list[str]:
+    out = []
+    for lit in ["3.8", "3.9", "3.10", "3.11"]:
+        for op in VOPS:
+            out.append(f'python_version {op} "{lit}"')
+    for lit in ["3.9.0", "3.9.1", "3.10.0", "3.8.10", "3.9"]:
+        for op in VOPS:
+            if op == "~=" and lit.count(".") < 2:
+                continue
+            out.append(f'python_full_version {op} "{lit}"')
+    out += ['python_version in "3.8 3.9"', 'python_version not in "3.9 3.10"', 'python_full_version in "3.9.0 3.9.1"',
+            'python_full_version not in "3.10.0"']
+    return out
+
+
+def string_leaf_universe() -> list[str]:
+    out = []
+    for name, vals in (("sys_platform", ["linux", "win32", "darwin"]), ("os_name", ["nt", "posix"])):
+        for v in vals:
+            out += [f'{name} == "{v}"', f'{name} != "{v}"']
+        out += [f'{name} in "{vals[0]} {vals[1]}"', f'{name} not in "{vals[0]} {vals[1]}"', f'"{vals[0][:2]}" in {name}',
+                f'"{vals[0][:2]}" not in {name}']
+    for e in ["a", "b", "Foo_Bar"]:
+        out += [f'extra == "{e}"', f'extra != "{e}"']
+    return out
+
+
+def same_variable_pairs(rnd: random.Random, n: int | None = None) -> list[tuple[str, str]]:
+    """all ordered pairs inside the python universe and inside the string universe (same variable or
+    python_version x python_full_version); `n` = size of a seeded sample, None = all"""
+    pu, su = python_leaf_universe(), string_leaf_universe()
+    same = lambda a, b: a.split()[0].strip('"') == b.split()[0].strip('"') or a.split()[-1] == b.split()[-1]  # noqa: E731
+    # always complete: python_version x python_version (adjacent minors, every operator pair) and the string variables
+    core = [(a, b) for a in pu for b in pu if a.startswith("python_version") and b.startswith("python_version")]
+    core += [(a, b) for a in su for b in su if same(a, b)]
+    rest = [(a, b) for a in pu for b in pu if not (a.startswith("python_version") and b.startswith("python_version"))]
+    if n is not None and n < len(rest):
+        rest = rnd.sample(rest, n)
+    return core + rest
